@@ -27,7 +27,7 @@ CHECKS = {
     ),
     "C02": (
         "exhaustive product enumeration of affine ensembles / designs / masks / failure patterns through EnsembleEvaluator.calculate with an exact-slope reference",
-        "Bounded exhaustive exploration of the implementation: the full product of the listed alphabets for V<=2,R<=2 (quick) / V<=3,R<=3 (thorough), combined and split paths, compared with the exact gradient of the affine ensemble; fixed entries compared with ==0.0.",
+        "Bounded exhaustive exploration of the implementation: the full product of the listed alphabets for V<=2,R<=2 (quick) / V<=3,R<=3 (thorough), combined and split paths, compared with the exact gradient of the affine ensemble; fixed entries compared with ==0.0; plus a spot slice with a common level of 2^20 on every realization for the stddev estimator.",
         "Trusted: CPython, NumPy (incl. its SVD for the conditioning precondition), the slope-combination reference. Cases missing the conditioning precondition are generated and counted trivial.",
         "DESIGN.md 2/C02",
     ),
@@ -45,13 +45,13 @@ CHECKS = {
     ),
     "C13": (
         "exhaustive product enumeration of bound kinds x value positions for variables, linear and non-linear constraints through a real evaluator step with a tracker",
-        "Bounded exhaustive exploration of the implementation: all 144 two-variable bound-kind/position settings x 15 linear x 15 non-linear settings x transforms x tolerances run through Plan/evaluator step/tracker and compared with the IEEE formulas.",
+        "Bounded exhaustive exploration of the implementation: all 144 two-variable bound-kind/position settings x 19 linear x 19 non-linear settings (incl. values outside a bound by a relative 2^-20 and 2^-30) x transforms x tolerances run through Plan/evaluator step/tracker and compared with the IEEE formulas; plus 36 (quick) / 144 (thorough) wide spot instances (5 variables, 3x5 linear matrix, 4 non-linear constraints, batch of 3) that are single instances, not an exhaustive bound.",
         "Trusted: CPython, NumPy, the formulas value-lower, value-upper, max(lower-value,value-upper,0).",
         "DESIGN.md 2/C13",
     ),
     "C17": (
         "exhaustive product enumeration of methods x shapes x masks x sampler assignments x shared x seeds x consecutive calls on the real sampler plug-in, reference QMC engines",
-        "Bounded exhaustive exploration of the implementation: every method, R<=3, P in {1,2,4,8}, V<=3, every mask and two-sampler assignment; contract checks plus point-set equality with an identically seeded scipy engine and LHS stratification.",
+        "Bounded exhaustive exploration of the implementation: every method, R<=3, P in {1,2,4,8}, V<=3, every mask and two-sampler assignment; contract checks plus point-set equality with an identically seeded scipy engine and LHS stratification; plus three single large shapes per method (up to 300 points per request) as spot instances.",
         "Trusted: scipy.stats.qmc engines (the reference), NumPy generators.",
         "DESIGN.md 2/C17",
     ),
